@@ -20,7 +20,8 @@ Record Fld : Type := mkFld {
   kconj  : K -> K;
   keqb   : K -> K -> bool;
   (* [far d]: the test |d| > atol of the numeric branches;
-     [close a b]: numpy.isclose(a, b) with its default tolerances *)
+     [close a b]: the shared-eigenvalue test numpy.isclose(a, b, atol=atol) (the solver's
+     atol, numpy's default rtol = 1e-5 relative to b) *)
   far    : K -> bool;
   close  : K -> K -> bool;
   (* laws *)
@@ -73,9 +74,11 @@ Definition gclose_gen (A r : Qc) (a b : G) : bool :=
   let s := d2 + A * A - r * r * gnorm2 b in
   Qcleb d2 (A * A) || Qcleb s 0 || Qcleb (s * s) (Q2Qc 4 * (A * A) * d2).
 
-Definition np_atol : Qc := Q2Qc (1 # 100000000).
 Definition np_rtol : Qc := Q2Qc (1 # 100000).
-Definition gclose : G -> G -> bool := gclose_gen np_atol np_rtol.
+(* the shared-eigenvalue test of solve_sylvester_diagonal since fix e4d96a1:
+   np.isclose(E_a, E_b, atol=atol) with the SOLVER's atol (numpy's default rtol, relative to E_b):
+   shared(a, b) := |a - b| <= atol + 1e-5 |b| *)
+Definition gclose (t : Qc) : G -> G -> bool := gclose_gen t np_rtol.
 
 (* literals used by the harnesses *)
 Definition qc (a : Z) (b : positive) : Qc := Q2Qc (a # b).
@@ -170,21 +173,28 @@ Proof. unfold gfar. rewrite gnorm2_opp. reflexivity. Qed.
 Lemma gfar_conj t d : gfar t (gconj d) = gfar t d.
 Proof. unfold gfar. rewrite gnorm2_conj. reflexivity. Qed.
 
-Lemma gclose_refl a : gclose a a = true.
+Lemma Qcleb_0_sq (t : Qc) : Qcleb 0 (t * t) = true.
+Proof.
+  unfold Qcleb. destruct (0 ?= t * t)%Qc eqn:E; try reflexivity.
+  exfalso. rewrite <- Qcgt_alt in E. unfold Qclt in E.
+  rewrite this_mul in E. change (this 0%Qc) with 0%Q in E. nra.
+Qed.
+
+Lemma gclose_refl t a : gclose t a a = true.
 Proof.
   unfold gclose, gclose_gen.
   replace (gnorm2 (gsub a a)) with (0%Qc).
-  - reflexivity.
+  - rewrite Qcleb_0_sq. reflexivity.
   - unfold gnorm2, gsub; simpl; ring.
 Qed.
 
 (* The instance with tolerance [t] (the [atol] argument), valid for t >= 0. *)
 Definition GF (t : Qc) (Ht : Qcltb t 0 = false) : Fld.
 Proof.
-  refine (@mkFld G g0 g1 gadd gmul gsub gopp ginv gconj geqb (gfar t) gclose
+  refine (@mkFld G g0 g1 gadd gmul gsub gopp ginv gconj geqb (gfar t) (gclose t)
             G_ring ginv_r geqb_spec gconj_add gconj_mul gconj_opp gconj_inv ginv_0
             gconj_1 gconj_conj
-            _ (gfar_opp t) (gfar_conj t) gclose_refl).
+            _ (gfar_opp t) (gfar_conj t) (gclose_refl t)).
   destruct (gfar_0 t) as [H|H]; [exact H|congruence].
 Defined.
 
